@@ -1,2 +1,571 @@
-//! E3: preemption-bounded schedule exploration of real threads at hook points (C17).
-pub fn free_run() -> i32 { 0 }
+//! E3: preemption-bounded exhaustive schedule exploration (C17).
+//!
+//! Real OS threads call the real `apply` on shared `Arc<Value>` inputs. A token decides who
+//! runs; it changes hands only at the hook points the crate exposes under the cargo feature
+//! `verif_hooks` (entry of Parsed::from_value / Parsed::evaluate, every *Operator::execute,
+//! just before log's println!) and when a thread finishes. The explorer is the stateless DFS
+//! of iterative context bounding: run the default schedule, then branch at every scheduling
+//! point within the preemption budget; executions always run to completion.
+//!
+//! Oracle per execution: every call returns what it returns in isolation; the multiset of
+//! printed lines is the expected one and every thread's own lines keep their order; the shared
+//! inputs are untouched.
+
+use crate::ctx::Ctx;
+use crate::exec::{self, Obs, Outcome};
+use serde_json::{json, Value};
+use std::cell::Cell;
+use std::collections::BTreeSet;
+use std::sync::{Arc, Condvar, Mutex};
+
+#[derive(Clone, Debug)]
+pub struct Point {
+    pub enabled: Vec<usize>,
+    pub chosen: usize,
+    /// the thread that was running when the point was reached, if it can continue
+    pub running: Option<usize>,
+}
+
+struct State {
+    /// who holds the token (usize::MAX = nobody yet)
+    current: usize,
+    finished: Vec<bool>,
+    arrived: Vec<bool>,
+    /// choices to replay (indices into the canonical enabled order), then default 0
+    prefix: Vec<usize>,
+    points: Vec<Point>,
+    diverged: bool,
+    hook_sites: u64,
+}
+
+struct Sched {
+    m: Mutex<State>,
+    cv: Condvar,
+}
+
+static SCHED: Mutex<Option<Arc<Sched>>> = Mutex::new(None);
+
+thread_local! {
+    static MY_ID: Cell<Option<usize>> = Cell::new(None);
+}
+
+fn current_sched() -> Option<Arc<Sched>> {
+    SCHED.lock().unwrap().clone()
+}
+
+/// canonical order: the running thread first if it is still enabled, then ascending ids
+fn canonical(enabled: &BTreeSet<usize>, running: Option<usize>) -> Vec<usize> {
+    let mut v = Vec::new();
+    if let Some(r) = running {
+        if enabled.contains(&r) {
+            v.push(r);
+        }
+    }
+    for &e in enabled {
+        if Some(e) != running {
+            v.push(e);
+        }
+    }
+    v
+}
+
+impl Sched {
+    /// A scheduling decision. `me_running` = the calling thread may continue.
+    fn decide(&self, st: &mut State, running: Option<usize>) {
+        let enabled: BTreeSet<usize> = (0..st.finished.len()).filter(|&i| !st.finished[i]).collect();
+        if enabled.is_empty() {
+            st.current = usize::MAX - 1;
+            return;
+        }
+        let order = canonical(&enabled, running);
+        let idx = st.points.len();
+        let choice = if idx < st.prefix.len() { st.prefix[idx] } else { 0 };
+        let chosen = if choice < order.len() {
+            order[choice]
+        } else {
+            st.diverged = true;
+            order[0]
+        };
+        st.points.push(Point { enabled: order, chosen, running });
+        st.current = chosen;
+    }
+
+    fn yield_point(&self, me: usize) {
+        let mut st = self.m.lock().unwrap();
+        st.hook_sites += 1;
+        self.decide(&mut st, Some(me));
+        self.cv.notify_all();
+        while st.current != me {
+            st = self.cv.wait(st).unwrap();
+        }
+    }
+
+    fn start(&self, me: usize) {
+        let mut st = self.m.lock().unwrap();
+        st.arrived[me] = true;
+        self.cv.notify_all();
+        while st.current != me {
+            st = self.cv.wait(st).unwrap();
+        }
+    }
+
+    fn finish(&self, me: usize) {
+        let mut st = self.m.lock().unwrap();
+        st.finished[me] = true;
+        self.decide(&mut st, None);
+        self.cv.notify_all();
+    }
+}
+
+fn hook(_site: &'static str) {
+    if let Some(me) = MY_ID.with(|c| c.get()) {
+        if let Some(s) = current_sched() {
+            s.yield_point(me);
+        }
+    }
+}
+
+pub fn install_hook() {
+    jsonlogic_rs::verif_hook::install(hook);
+}
+
+#[derive(Clone)]
+pub struct Call {
+    pub rule: Arc<Value>,
+    pub data: Arc<Value>,
+}
+
+pub struct Execution {
+    pub points: Vec<Point>,
+    pub results: Vec<Vec<Obs>>,
+    pub stdout: Vec<String>,
+    pub diverged: bool,
+    pub hook_sites: u64,
+    pub inputs_intact: bool,
+}
+
+/// Run the thread bodies once under the schedule `prefix` (default choices afterwards).
+pub fn run_once(bodies: &[Vec<Call>], prefix: &[usize]) -> Execution {
+    let n = bodies.len();
+    let sched = Arc::new(Sched {
+        m: Mutex::new(State {
+            current: usize::MAX,
+            finished: vec![false; n],
+            arrived: vec![false; n],
+            prefix: prefix.to_vec(),
+            points: Vec::new(),
+            diverged: false,
+            hook_sites: 0,
+        }),
+        cv: Condvar::new(),
+    });
+    *SCHED.lock().unwrap() = Some(sched.clone());
+    let pristine: Vec<Vec<(Value, Value)>> = bodies.iter().map(|b| b.iter().map(|c| ((*c.rule).clone(), (*c.data).clone())).collect()).collect();
+    let _ = exec::drain_stdout();
+    let mut handles = Vec::new();
+    for (id, body) in bodies.iter().enumerate() {
+        let body = body.clone();
+        let s = sched.clone();
+        handles.push(
+            std::thread::Builder::new()
+                .stack_size(4 << 20)
+                .spawn(move || {
+                    MY_ID.with(|c| c.set(Some(id)));
+                    s.start(id);
+                    let mut out = Vec::new();
+                    for call in &body {
+                        // no per-call stdout drain here: lines of all threads interleave in one stream
+                        let r = std::panic::catch_unwind(std::panic::AssertUnwindSafe(|| jsonlogic_rs::apply(&call.rule, &call.data)));
+                        let o = match r {
+                            Ok(Ok(v)) => Outcome::Ok(v),
+                            Ok(Err(e)) => Outcome::Err(e.to_string()),
+                            Err(_) => Outcome::Panic("panic in thread".into(), "-".into()),
+                        };
+                        out.push(Obs { out: o, log: vec![] });
+                    }
+                    MY_ID.with(|c| c.set(None));
+                    s.finish(id);
+                    out
+                })
+                .unwrap(),
+        );
+    }
+    // wait until every thread has arrived, then make the first decision (who starts)
+    {
+        let mut st = sched.m.lock().unwrap();
+        while !st.arrived.iter().all(|&a| a) {
+            st = sched.cv.wait(st).unwrap();
+        }
+        sched.decide(&mut st, None);
+        sched.cv.notify_all();
+    }
+    let mut results = Vec::new();
+    for h in handles {
+        results.push(h.join().unwrap_or_default());
+    }
+    use std::io::Write;
+    let _ = std::io::stdout().flush();
+    let stdout = exec::drain_stdout();
+    *SCHED.lock().unwrap() = None;
+    let st = sched.m.lock().unwrap();
+    let mut intact = true;
+    for (b, p) in bodies.iter().zip(&pristine) {
+        for (c, (r0, d0)) in b.iter().zip(p) {
+            if *c.rule != *r0 || *c.data != *d0 || c.rule.to_string() != r0.to_string() || c.data.to_string() != d0.to_string() {
+                intact = false;
+            }
+        }
+    }
+    Execution { points: st.points.clone(), results, stdout, diverged: st.diverged, hook_sites: st.hook_sites, inputs_intact: intact }
+}
+
+fn preemptions(points: &[Point]) -> usize {
+    points.iter().filter(|p| p.running.is_some() && Some(p.chosen) != p.running && p.running.map(|r| p.enabled.contains(&r)).unwrap_or(false)).count()
+}
+
+pub struct Stats {
+    pub schedules: u64,
+    pub by_preemptions: Vec<u64>,
+    pub points: u64,
+    pub max_points: u64,
+    pub interleavings: BTreeSet<String>,
+    pub replays: u64,
+    pub replay_divergences: u64,
+    pub violations: Vec<(Vec<usize>, String, String)>,
+    pub capped: bool,
+}
+
+/// Isolated outcome of a call: single-threaded, nobody else running.
+fn isolated(c: &Call) -> Obs {
+    exec::apply(&c.rule, &c.data)
+}
+
+fn same_out(a: &Outcome, b: &Outcome) -> bool {
+    match (a, b) {
+        (Outcome::Ok(x), Outcome::Ok(y)) => x == y && x.to_string() == y.to_string(),
+        (Outcome::Err(_), Outcome::Err(_)) => true,
+        _ => false,
+    }
+}
+
+fn is_subsequence(small: &[String], big: &[String]) -> bool {
+    let mut i = 0;
+    for b in big {
+        if i < small.len() && small[i] == *b {
+            i += 1;
+        }
+    }
+    i == small.len()
+}
+
+/// Oracle for one execution.
+fn judge(bodies: &[Vec<Call>], iso: &[Vec<Obs>], e: &Execution) -> Option<(String, String)> {
+    if e.diverged {
+        return Some(("schedule prefix replays deterministically".into(), "a replayed choice was out of range (uncontrolled nondeterminism)".into()));
+    }
+    if !e.inputs_intact {
+        return Some(("shared inputs untouched".into(), "a shared rule or data value was modified".into()));
+    }
+    for (t, (body, res)) in bodies.iter().zip(&e.results).enumerate() {
+        if res.len() != body.len() {
+            return Some((format!("thread {} completes its {} call(s)", t, body.len()), format!("{} result(s)", res.len())));
+        }
+        for (k, r) in res.iter().enumerate() {
+            if !same_out(&r.out, &iso[t][k].out) {
+                return Some((format!("thread {} call {} as in isolation: {}", t, k, iso[t][k].show()), r.show()));
+            }
+        }
+    }
+    // stdout: multiset equality and per-thread order
+    let mut expected: Vec<String> = iso.iter().flat_map(|t| t.iter().flat_map(|o| o.log.clone())).collect();
+    let mut got = e.stdout.clone();
+    let per_thread_ok = iso.iter().all(|t| {
+        let lines: Vec<String> = t.iter().flat_map(|o| o.log.clone()).collect();
+        is_subsequence(&lines, &e.stdout)
+    });
+    expected.sort();
+    got.sort();
+    if expected != got || !per_thread_ok {
+        return Some((format!("exactly the lines {:?}, each thread's in order", expected), format!("{:?}", e.stdout)));
+    }
+    None
+}
+
+pub fn explore(bodies: &[Vec<Call>], bound: usize, cap: u64) -> Stats {
+    let iso: Vec<Vec<Obs>> = bodies.iter().map(|b| b.iter().map(isolated).collect()).collect();
+    let mut st = Stats {
+        schedules: 0,
+        by_preemptions: vec![0; bound + 1],
+        points: 0,
+        max_points: 0,
+        interleavings: BTreeSet::new(),
+        replays: 0,
+        replay_divergences: 0,
+        violations: Vec::new(),
+        capped: false,
+    };
+    let mut stack: Vec<Vec<usize>> = vec![vec![]];
+    while let Some(prefix) = stack.pop() {
+        if st.schedules >= cap {
+            st.capped = true;
+            break;
+        }
+        let e = run_once(bodies, &prefix);
+        st.schedules += 1;
+        st.points += e.points.len() as u64;
+        st.max_points = st.max_points.max(e.points.len() as u64);
+        let pre = preemptions(&e.points);
+        if pre <= bound {
+            st.by_preemptions[pre] += 1;
+        }
+        st.interleavings.insert(e.stdout.join("|"));
+        if let Some((exp, act)) = judge(bodies, &iso, &e) {
+            // the same schedule must fail the same way before it is believed
+            let choices: Vec<usize> = e.points.iter().map(|p| p.enabled.iter().position(|&x| x == p.chosen).unwrap_or(0)).collect();
+            let again = run_once(bodies, &choices);
+            if judge(bodies, &iso, &again).is_none() {
+                st.replay_divergences += 1;
+            }
+            if st.violations.len() < 5 {
+                st.violations.push((choices, exp, act));
+            }
+        } else if st.schedules % 100 == 0 {
+            let choices: Vec<usize> = e.points.iter().map(|p| p.enabled.iter().position(|&x| x == p.chosen).unwrap_or(0)).collect();
+            let again = run_once(bodies, &choices);
+            st.replays += 1;
+            let same = again.stdout == e.stdout
+                && again.points.len() == e.points.len()
+                && again.results.iter().zip(&e.results).all(|(a, b)| a.len() == b.len() && a.iter().zip(b).all(|(x, y)| same_out(&x.out, &y.out)));
+            if !same {
+                st.replay_divergences += 1;
+            }
+        }
+        // branch: every alternative at every point after the prefix, within the budget
+        let mut cost = 0usize;
+        let choices: Vec<usize> = e.points.iter().map(|p| p.enabled.iter().position(|&x| x == p.chosen).unwrap_or(0)).collect();
+        for (i, p) in e.points.iter().enumerate() {
+            let still = p.running.map(|r| p.enabled.contains(&r)).unwrap_or(false);
+            if i >= prefix.len() {
+                for alt in 1..p.enabled.len() {
+                    let c = cost + if still { 1 } else { 0 };
+                    if c <= bound {
+                        let mut np = choices[..i].to_vec();
+                        np.push(alt);
+                        stack.push(np);
+                    }
+                }
+            }
+            if still && Some(p.chosen) != p.running {
+                cost += 1;
+            }
+        }
+    }
+    st
+}
+
+fn call(rule: Value, data: &Arc<Value>) -> Call {
+    Call { rule: Arc::new(rule), data: data.clone() }
+}
+
+/// Harness configurations: thread bodies chosen to collide.
+pub fn configs(thorough: bool) -> Vec<(String, Vec<Vec<Call>>, usize)> {
+    let d1 = Arc::new(json!({"a": "xyz", "xs": [1, 2, 3], "n": 2, "b": {"c": "deep"}}));
+    let d2 = Arc::new(json!({"a": "7", "xs": [3, 0], "n": 7.0}));
+    let filter = Arc::new(json!({"filter": [{"var": "xs"}, {">": [{"var": ""}, 1]}]}));
+    let b = if thorough { 3 } else { 2 };
+    let mut v: Vec<(String, Vec<Vec<Call>>, usize)> = Vec::new();
+    // same rule (shared), different data
+    v.push(("same-rule/different-data:filter".into(), vec![vec![Call { rule: filter.clone(), data: d1.clone() }], vec![Call { rule: filter.clone(), data: d2.clone() }]], b));
+    // identical call twice
+    v.push(("identical-call:filter".into(), vec![vec![Call { rule: filter.clone(), data: d1.clone() }], vec![Call { rule: filter.clone(), data: d1.clone() }]], b));
+    // same data, different rules
+    v.push((
+        "same-data/different-rule:cat-vs-reduce".into(),
+        vec![vec![call(json!({"cat": ["<", {"var": "a"}, ">", {"var": "n"}]}), &d1)], vec![call(json!({"reduce": [{"var": "xs"}, {"+": [{"var": "current"}, {"var": "accumulator"}]}, 0]}), &d1)]],
+        b,
+    ));
+    v.push((
+        "same-data/different-rule:merge-vs-missing".into(),
+        vec![vec![call(json!({"merge": [{"var": "xs"}, [0], {"var": "a"}]}), &d1)], vec![call(json!({"missing_some": [2, ["a", "zz", "n"]]}), &d1)]],
+        b,
+    ));
+    // log lines with thread-distinct markers
+    v.push((
+        "log:thread-distinct-markers".into(),
+        vec![vec![call(json!({"cat": [{"log": "A1"}, {"log": "A2"}]}), &d1)], vec![call(json!({"cat": [{"log": "B1"}, {"log": "B2"}]}), &d2)]],
+        b,
+    ));
+    // lazy operators spanning many hook points
+    v.push((
+        "lazy:if-and-or-vs-all".into(),
+        vec![vec![call(json!({"if": [{"and": [{"var": "a"}, {"or": [{"var": "nope"}, {"var": "n"}]}]}, {"var": "a"}, "else"]}), &d1)], vec![call(json!({"all": [{"var": "xs"}, {">": [{"var": ""}, 0]}]}), &d1)]],
+        b,
+    ));
+    v.push((
+        "map-vs-map:same-rule".into(),
+        {
+            let m = Arc::new(json!({"map": [{"var": "xs"}, {"cat": [{"var": ""}, "!"]}]}));
+            vec![vec![Call { rule: m.clone(), data: d1.clone() }], vec![Call { rule: m.clone(), data: d2.clone() }]]
+        },
+        b,
+    ));
+    v.push((
+        "substr-var-arith".into(),
+        vec![vec![call(json!({"substr": [{"var": "a"}, 1, 1]}), &d1)], vec![call(json!({"+": [{"var": "n"}, "3.5", [2]]}), &d2)]],
+        b,
+    ));
+    // two calls per thread (history and interleaving together)
+    v.push((
+        "2x2:filter-then-cat".into(),
+        vec![
+            vec![Call { rule: filter.clone(), data: d1.clone() }, call(json!({"cat": [{"var": "a"}, "-", {"var": "n"}]}), &d1)],
+            vec![call(json!({"cat": [{"var": "a"}, "+", {"var": "n"}]}), &d2), Call { rule: filter.clone(), data: d2.clone() }],
+        ],
+        if thorough { 2 } else { 1 },
+    ));
+    // three threads
+    v.push((
+        "3-threads:filter-filter-cat".into(),
+        vec![
+            vec![Call { rule: filter.clone(), data: d1.clone() }],
+            vec![Call { rule: filter.clone(), data: d2.clone() }],
+            vec![call(json!({"cat": [{"log": "C"}, {"var": "a"}]}), &d1)],
+        ],
+        if thorough { 2 } else { 1 },
+    ));
+    if thorough {
+        v.push((
+            "3-threads:reduce-some-in".into(),
+            vec![
+                vec![call(json!({"reduce": [{"var": "xs"}, {"cat": [{"var": "accumulator"}, {"var": "current"}]}, ""]}), &d1)],
+                vec![call(json!({"some": [{"var": "xs"}, {"==": [{"var": ""}, 3]}]}), &d1)],
+                vec![call(json!({"in": [{"var": "n"}, {"var": "xs"}]}), &d1)],
+            ],
+            2,
+        ));
+    }
+    v
+}
+
+pub fn run(ctx: &mut Ctx) {
+    install_hook();
+    let cap: u64 = std::env::var("JLMC_SCHED_CAP").ok().and_then(|s| s.parse().ok()).unwrap_or(if ctx.tier_thorough { 400_000 } else { 60_000 });
+    for (name, bodies, bound) in configs(ctx.tier_thorough) {
+        if !ctx.mine() {
+            continue;
+        }
+        ctx.tick_external(&json!({"schedule_config": name}));
+        // iterate the bound: 0, 1, .. so that the first counterexample has the fewest preemptions
+        let mut last: Option<Stats> = None;
+        for bnd in 0..=bound {
+            let st = explore(&bodies, bnd, cap);
+            ctx.tick_external(&json!({"schedule_config": name, "bound": bnd, "schedules": st.schedules}));
+            let failed = !st.violations.is_empty();
+            if bnd == bound || failed {
+                last = Some(st);
+                if failed {
+                    break;
+                }
+            } else {
+                crate::history::add_extra(ctx, &format!("schedules_bound_{}", bnd), st.schedules);
+            }
+        }
+        let st = last.unwrap();
+        ctx.states += st.points + st.schedules;
+        ctx.transitions += st.points;
+        ctx.leaves += st.schedules;
+        ctx.evaluations += st.schedules + st.replays;
+        *ctx.subspaces.entry(format!("schedule:{}", name)).or_insert(0) += st.schedules;
+        *ctx.outcomes.entry(format!("schedule-ok")).or_insert(0) += st.schedules - st.violations.len().min(st.schedules as usize) as u64;
+        crate::history::add_extra(ctx, &format!("schedules_bound_{}", bound.min(st.by_preemptions.len() - 1)), st.schedules);
+        crate::history::add_extra(ctx, "schedules_total", st.schedules);
+        crate::history::add_extra(ctx, "scheduling_points_total", st.points);
+        crate::history::add_extra(ctx, "distinct_stdout_interleavings", st.interleavings.len() as u64);
+        crate::history::add_extra(ctx, "replayed_twice", st.replays);
+        crate::history::add_extra(ctx, "replay_divergences", st.replay_divergences);
+        let cur = ctx.extra.get("max_points_per_execution").and_then(|v| v.as_u64()).unwrap_or(0);
+        ctx.extra.insert("max_points_per_execution".into(), json!(cur.max(st.max_points)));
+        for i in 0..st.schedules.min(2_000_000) {
+            ctx.nontrivial.insert(crate::ctx::hash_str(&format!("sched-{}-{}", name, i)));
+        }
+        if st.capped {
+            ctx.fail("schedule:machinery", json!({"config": name}), "the bounded space is closed".into(), "PANIC-like: schedule cap hit before the space was closed".into(), None);
+        }
+        if st.replay_divergences > 0 {
+            ctx.fail("schedule:machinery", json!({"config": name}), "a replayed schedule reproduces the same observations".into(), "PANIC-like: divergence while replaying a schedule (uncontrolled nondeterminism)".into(), None);
+        }
+        for (choices, exp, act) in &st.violations {
+            let threads: Vec<Value> = bodies.iter().map(|b| Value::Array(b.iter().map(|c| json!({"rule": *c.rule, "data": *c.data})).collect())).collect();
+            ctx.fail("schedule", json!({"config": name, "threads": threads, "schedule": choices}), exp.clone(), act.clone(), None);
+        }
+        ctx.sample_force(json!({"config": name, "threads": bodies.len(), "preemption_bound": bound, "schedules": st.schedules, "scheduling_points_max": st.max_points, "distinct_stdout_interleavings": st.interleavings.len(),
+            "thread_bodies": bodies.iter().map(|b| Value::Array(b.iter().map(|c| json!({"rule": *c.rule, "data": *c.data})).collect())).collect::<Vec<_>>()}));
+    }
+}
+
+/// Replay one recorded schedule without the explorer.
+pub fn replay(rec: &Value) -> i32 {
+    install_hook();
+    let _saved = exec::capture_stdout();
+    let case = &rec["case"];
+    let bodies: Vec<Vec<Call>> = case["threads"]
+        .as_array()
+        .map(|ts| {
+            ts.iter()
+                .map(|t| t.as_array().map(|cs| cs.iter().map(|c| Call { rule: Arc::new(c["rule"].clone()), data: Arc::new(c["data"].clone()) }).collect()).unwrap_or_default())
+                .collect()
+        })
+        .unwrap_or_default();
+    let choices: Vec<usize> = case["schedule"].as_array().map(|a| a.iter().map(|x| x.as_u64().unwrap_or(0) as usize).collect()).unwrap_or_default();
+    let iso: Vec<Vec<Obs>> = bodies.iter().map(|b| b.iter().map(isolated).collect()).collect();
+    let e = run_once(&bodies, &choices);
+    let verdict = judge(&bodies, &iso, &e);
+    eprintln!("schedule {:?}: {} scheduling points, stdout {:?}", choices, e.points.len(), e.stdout);
+    match verdict {
+        Some((exp, act)) => {
+            eprintln!("expected {} / got {}", exp, act);
+            eprintln!("VIOLATION property=C17 (schedule replay)");
+            1
+        }
+        None => {
+            eprintln!("this build does not violate the oracle under the recorded schedule");
+            0
+        }
+    }
+}
+
+/// The same thread bodies free-running (no token, no hand-offs): a sampling stress run and the
+/// body used under miri's data-race detector; NOT the deciding step.
+pub fn free_run() -> i32 {
+    exec::install_panic_hook();
+    let _saved = exec::capture_stdout();
+    let mut bad = 0;
+    for (name, bodies, _) in configs(true) {
+        let iso: Vec<Vec<Obs>> = bodies.iter().map(|b| b.iter().map(isolated).collect()).collect();
+        for _round in 0..200 {
+            let mut hs = Vec::new();
+            for body in bodies.iter().cloned() {
+                hs.push(std::thread::spawn(move || body.iter().map(|c| jsonlogic_rs::apply(&c.rule, &c.data).map_err(|e| e.to_string())).collect::<Vec<_>>()));
+            }
+            for (t, h) in hs.into_iter().enumerate() {
+                let rs = h.join().unwrap();
+                for (k, r) in rs.iter().enumerate() {
+                    let o = match r {
+                        Ok(v) => Outcome::Ok(v.clone()),
+                        Err(e) => Outcome::Err(e.clone()),
+                    };
+                    if !same_out(&o, &iso[t][k].out) {
+                        bad += 1;
+                        eprintln!("free-run mismatch in {} thread {} call {}", name, t, k);
+                    }
+                }
+            }
+            let _ = exec::drain_stdout();
+        }
+    }
+    if bad > 0 {
+        1
+    } else {
+        0
+    }
+}
